@@ -1,102 +1,196 @@
 (* C09 — cache.Cache under concurrent use: the locking discipline is proved, the runtime is exercised.
    Only statements, each closed by [exact] of a lemma proved in Cache/.
 
-   Model: Cache/Conc.v — threads calling methods in small steps call / acquire / read / write /
-   release / return, where the two micro-steps of a method need the mutex iff the method is
-   lock-wrapped according to Gen/CacheLocks.v (regenerated from cache/cache.go on every run); the
-   sequential object is the C08 model (Cache/CacheModel.v, any heap variant).
+   Model: Cache/Conc.v — threads calling methods in small steps call / enter / read / write / leave /
+   return; a call makes the critical sections its method's shape lists, each in its mode (Excl =
+   Lock, Shar = RLock, Unl = no lock); between any two small steps of one thread the others may run.
+   The shape of every method comes from Gen/CacheLocks.v, rebuilt from cache/cache.go on every run
+   by the translator (translator/cachelocks.go): the parts of the method body in source order.  A
+   method is one critical section iff its parts are exactly [Body Excl] (or [Body Shar]): Lock
+   first, Unlock deferred, every statement touching the receiver in between, no call of another
+   method of the cache anywhere.  The sequential object is the C08 model (Cache/CacheModel.v, any
+   heap variant).
 
-   PARTIAL by nature.  Proved: with every method lock-wrapped (C09_all_methods_locked, the
-   obligation that breaks when a Lock is dropped or narrowed), for every schedule and every prefix
-   the history is linearizable w.r.t. the C08 sequential model with the order of critical sections
-   as the witness (each linearization point lies between its call's invocation and response, so
-   real-time order is respected), the linearized run is a behaviour of the C08 reference S1 (no
-   panic, each departing entry reported exactly once), and every observed Size is within the
-   limit.  NOT proved (no Gallina model exhibits them; exercised by the -race runs of
-   harness/cmd/cacheconc): data-race freedom in the Go memory model, sync.Mutex itself,
-   re-entrant callbacks.  The known finding F2 carries over unchanged: the sequential object is
+   PARTIAL by nature.  Proved: the current source has every method atomic
+   (C09_all_methods_atomic — the obligation that breaks when a Lock is dropped, narrowed, split by
+   a call of another locking method, or weakened to RLock in a method that changes the state);
+   therefore, for every schedule and every prefix, the history of invocations and responses is
+   linearizable in Herlihy and Wing's sense w.r.t. the C08 model (C09_linearizable_partial: a
+   sequence of the completed calls with the results they returned, plus possibly pending ones,
+   each call once, legal for the C08 model, respecting real-time order); every legal sequential run
+   — so every linearization — is a behaviour of the C08 reference S1 (no panic, each departing
+   entry reported exactly once) and, for a heap without the defects F1/F2, of the reference LRU;
+   every observed Size is within [0, limit] and every observed Len is >= 0.
+   The atomicity hypothesis is necessary: C09_check_then_act_refuted runs a Remove made of two
+   exclusive sections (check, then act) to a history that is not linearizable.
+   NOT proved (no Gallina model exhibits them; exercised by the -race runs of harness/cmd/cacheconc):
+   data-race freedom in the Go memory model, sync.Mutex / sync.RWMutex themselves, re-entrant
+   callbacks, and that the statements inside one critical section behave as the C08 step (that is
+   C08's correspondence).  The known finding F2 carries over unchanged: the sequential object is
    C08's, and with the pinned heap its eviction order is not LRU. *)
 From Coq Require Import ZArith List Bool String.
 Import ListNotations.
 From Mds Require Import Gen.CacheLocks Heapq.HeapqModel Cache.CacheSpec Cache.CacheModel Cache.CacheWitness
-  Cache.Conc Cache.ConcCache Cache.ConcLocks.
+  Cache.ConcShape Cache.Conc Cache.ConcCache Cache.ConcLocks Cache.ConcRefute.
 Local Open Scope Z_scope.
 
-(* Put, Get, Has, Remove, Clear, Len, Size all start with c.μ.Lock(); defer c.μ.Unlock() *)
-Theorem C09_all_methods_locked : all_locked = true.
-Proof. exact all_locked_now. Qed.
-Print Assumptions C09_all_methods_locked.
+(* The mutex is a sync.Mutex or sync.RWMutex; Put, Get, Has, Remove, Clear, Len, Size and every
+   other method of Cache that touches the receiver are one critical section each: exclusive, or
+   shared for Has/Len/Size only. *)
+Theorem C09_all_methods_atomic : all_atomic = true.
+Proof. exact all_atomic_now. Qed.
+Print Assumptions C09_all_methods_atomic.
 
-Example C09_all_methods_locked_ex :
-  cache_methods = [("Clear", true); ("Get", true); ("Has", true); ("Len", true); ("Put", true); ("Remove", true); ("Size", true)]%string.
-Proof. reflexivity. Qed.
+Example C09_all_methods_atomic_ex :
+  cache_mutex_type = "sync.Mutex"%string /\
+  cache_methods = [("Clear", [Body Excl]); ("Get", [Body Excl]); ("Has", [Body Excl]); ("Len", [Body Excl]);
+                   ("Put", [Body Excl]); ("Remove", [Body Excl]); ("Size", [Body Excl])]%string.
+Proof. split; reflexivity. Qed.
+
+(* the shapes that the check rejects: the lock taken after a call of Has (two critical sections), a
+   method under RLock that is not read-only, no lock, an explicit Unlock in the middle *)
+Example C09_rejected_shapes_ex :
+  method_ok "Remove" [CallSelf Unl "Has"; Body Excl] = false /\
+  method_ok "Remove" [Body Excl; CallSelf Excl "Has"] = false /\
+  method_ok "Get" [Body Shar] = false /\
+  method_ok "Has" [Body Shar] = true /\
+  method_ok "Len" [Body Unl] = false /\
+  method_ok "Put" [Body Excl; Odd "explicit Unlock although the release is deferred"; Body Excl] = false /\
+  method_ok "Peek" [Body Shar] = false.
+Proof. repeat split; reflexivity. Qed.
 
 (* For every key/value type, size function, heap variant, limit, set of thread programs, schedule
-   and prefix: the history of invocations and responses is linearizable w.r.t. the C08 model. *)
+   and prefix: there is a sequence Sq of calls — no call twice; every completed call with the
+   result it returned; otherwise only invoked (pending) calls — that is a legal sequential run of
+   the C08 model from the empty cache and in which a call that returned before another was invoked
+   comes first. *)
 Theorem C09_linearizable_partial :
   forall (K V : Type) (keqb : K -> K -> bool) (kzero : K) (vzero : V) (sizeOf : V -> Z)
          (hv : variant) (lim : Z) (progs : nat -> list (op K V))
-         (c : config (cache K V) (op K V) (option (out V * evlog K V))),
-    reach _ _ _ (cache_seq K V keqb kzero vzero sizeOf hv) method_locked (cache_init K V lim) progs c ->
-    linearizable _ _ _ (cache_seq K V keqb kzero vzero sizeOf hv) (cache_init K V lim)
-                 (history _ _ (trace _ _ _ c)).
-Proof. intros. eapply cache_linearizable; [exact all_locked_now|eassumption]. Qed.
+         (c : config (cache K V) (op K V) (cres_t K V) (cres_t K V)),
+    reach _ _ _ _ method_shape (csec K V keqb kzero vzero sizeOf hv) None (cfin K V) (cache_init K V lim) progs c ->
+    let H := history (op K V) (cres_t K V) (trace _ _ _ _ c) in
+    exists Sq : list (call (op K V) (cres_t K V)),
+      NoDup (map (c_id _ _) Sq) /\
+      (forall t n o r, In (ERes _ _ t n o r) H -> In (mk_call _ _ t n o r) Sq) /\
+      (forall t n o r, In (mk_call _ _ t n o r) Sq -> In (EInv _ _ t n o) H) /\
+      legal _ _ _ _ method_shape (csec K V keqb kzero vzero sizeOf hv) None (cfin K V) (cache_init K V lim)
+            (map (op_res _ _) Sq) /\
+      (forall t1 n1 o1 r1 t2 n2 o2 r2,
+          before (ERes _ _ t1 n1 o1 r1) (EInv _ _ t2 n2 o2) H -> In (mk_call _ _ t2 n2 o2 r2) Sq ->
+          before (mk_call _ _ t1 n1 o1 r1) (mk_call _ _ t2 n2 o2 r2) Sq).
+Proof. intros. eapply cache_linearizable; [exact all_atomic_now|eassumption]. Qed.
 Print Assumptions C09_linearizable_partial.
 
-(* ... the calls in linearization order, with the results and callback logs the threads saw, are
-   accepted by the policy-agnostic reference of C08: no call panics, answers and accounting are a
-   cache's, every departing entry is reported exactly once. *)
+(* the identifiers used above name calls: no identifier is invoked twice in a history *)
+Theorem C09_call_ids_unique :
+  forall (K V : Type) (keqb : K -> K -> bool) (kzero : K) (vzero : V) (sizeOf : V -> Z)
+         (hv : variant) (lim : Z) (progs : nat -> list (op K V))
+         (c : config (cache K V) (op K V) (cres_t K V) (cres_t K V)),
+    reach _ _ _ _ method_shape (csec K V keqb kzero vzero sizeOf hv) None (cfin K V) (cache_init K V lim) progs c ->
+    NoDup (flat_map (inv_id _ _) (history (op K V) (cres_t K V) (trace _ _ _ _ c))).
+Proof. intros. eapply cache_ids_unique; [exact all_atomic_now|eassumption]. Qed.
+Print Assumptions C09_call_ids_unique.
+
+(* "legal for the small-step model's sequential object" means: call by call, the result is the
+   C08 model's ([cache_seq] = CacheModel.step, None for a panic) and the next state is its state *)
+Theorem C09_legal_is_c08_run :
+  forall (K V : Type) (keqb : K -> K -> bool) (kzero : K) (vzero : V) (sizeOf : V -> Z)
+         (hv : variant) (L : list (op K V * cres_t K V)) (c : cache K V),
+    legal _ _ _ _ method_shape (csec K V keqb kzero vzero sizeOf hv) None (cfin K V) c L <->
+    (fix lg (c : cache K V) (L : list (op K V * cres_t K V)) : Prop :=
+       match L with
+       | [] => True
+       | (o, r) :: L' => snd (cache_seq K V keqb kzero vzero sizeOf hv c o) = r /\
+                         lg (fst (cache_seq K V keqb kzero vzero sizeOf hv c o)) L'
+       end) c L.
+Proof. intros. apply cache_legal_is_c08. exact all_atomic_now. Qed.
+Print Assumptions C09_legal_is_c08_run.
+
+(* ... every legal sequential run from the empty cache — hence every linearization — with the
+   results and callback logs the threads saw, is accepted by the policy-agnostic reference of
+   C08: no call panics, answers and accounting are a cache's, every departing entry is reported
+   exactly once. *)
 Theorem C09_linearization_is_cache_behaviour :
   forall (K V : Type) (keqb : K -> K -> bool),
     (forall a b, keqb a b = true <-> a = b) ->
-  forall (kzero : K) (vzero : V) (sizeOf : V -> Z),
-    (forall v, 0 <= sizeOf v) ->
-  forall (hv : variant) (lim : Z),
+  forall (kzero : K) (vzero : V) (sizeOf : V -> Z) (hv : variant) (lim : Z),
     0 < lim ->
-  forall (progs : nat -> list (op K V)) (c : config (cache K V) (op K V) (option (out V * evlog K V))),
-    reach _ _ _ (cache_seq K V keqb kzero vzero sizeOf hv) method_locked (cache_init K V lim) progs c ->
-    exists obs, map snd (lins _ _ (trace _ _ _ c)) = map Some obs /\
-                s1_accepts K V keqb vzero sizeOf lim [] (map fst (lins _ _ (trace _ _ _ c))) obs.
-Proof. intros. eapply cache_linearization_s1; try eassumption. exact all_locked_now. Qed.
+    (forall v, 0 <= sizeOf v) ->
+  forall L : list (op K V * cres_t K V),
+    legal _ _ _ _ method_shape (csec K V keqb kzero vzero sizeOf hv) None (cfin K V) (cache_init K V lim) L ->
+    exists obs, map snd L = map Some obs /\ s1_accepts K V keqb vzero sizeOf lim [] (map fst L) obs.
+Proof. intros. eapply cache_legal_s1; try eassumption. exact all_atomic_now. Qed.
 Print Assumptions C09_linearization_is_cache_behaviour.
 
-(* ... and every Size() any thread observes is within the limit. *)
+(* ... and for a heap without the two known defects (the repaired variant) its results and
+   callback logs are exactly the reference LRU's: the victims are the least recently used. *)
+Theorem C09_linearization_is_lru_repaired :
+  forall (K V : Type) (keqb : K -> K -> bool),
+    (forall a b, keqb a b = true <-> a = b) ->
+  forall (kzero : K) (vzero : V) (sizeOf : V -> Z) (lim : Z),
+    0 < lim ->
+  forall L : list (op K V * cres_t K V),
+    legal _ _ _ _ method_shape (csec K V keqb kzero vzero sizeOf repaired) None (cfin K V) (cache_init K V lim) L ->
+    map snd L = map Some (s2_run K V keqb vzero sizeOf lim [] (map fst L)).
+Proof. intros. eapply cache_legal_s2_sound_heap; try eassumption; try reflexivity. exact all_atomic_now. Qed.
+Print Assumptions C09_linearization_is_lru_repaired.
+
+(* Every Size() any thread observes is within the limit. *)
 Theorem C09_size_le_limit :
   forall (K V : Type) (keqb : K -> K -> bool),
     (forall a b, keqb a b = true <-> a = b) ->
-  forall (kzero : K) (vzero : V) (sizeOf : V -> Z),
-    (forall v, 0 <= sizeOf v) ->
-  forall (hv : variant) (lim : Z),
+  forall (kzero : K) (vzero : V) (sizeOf : V -> Z) (hv : variant) (lim : Z),
     0 < lim ->
-  forall (progs : nat -> list (op K V)) (c : config (cache K V) (op K V) (option (out V * evlog K V))) r,
-    reach _ _ _ (cache_seq K V keqb kzero vzero sizeOf hv) method_locked (cache_init K V lim) progs c ->
-    In (OSize, r) (lins _ _ (trace _ _ _ c)) ->
-    exists n, r = Some (RNum n, []) /\ 0 <= n <= lim.
-Proof. intros. eapply cache_conc_size_le_limit; try eassumption. exact all_locked_now. Qed.
+    (forall v, 0 <= sizeOf v) ->
+  forall (progs : nat -> list (op K V)) (c : config (cache K V) (op K V) (cres_t K V) (cres_t K V)) t n r,
+    reach _ _ _ _ method_shape (csec K V keqb kzero vzero sizeOf hv) None (cfin K V) (cache_init K V lim) progs c ->
+    In (ERes _ _ t n OSize r) (trace _ _ _ _ c) ->
+    exists z, r = Some (RNum z, []) /\ 0 <= z <= lim.
+Proof. intros. eapply cache_conc_size_le_limit; try eassumption. exact all_atomic_now. Qed.
 Print Assumptions C09_size_le_limit.
 
-(* the hypotheses are satisfiable by a non-trivial schedule: thread 0 runs Put(1,10) up to its
-   linearization point while thread 1 has invoked Size() and waits for the mutex *)
+(* Every Len() any thread observes is >= 0. *)
+Theorem C09_len_nonneg :
+  forall (K V : Type) (keqb : K -> K -> bool),
+    (forall a b, keqb a b = true <-> a = b) ->
+  forall (kzero : K) (vzero : V) (sizeOf : V -> Z) (hv : variant) (lim : Z),
+    0 < lim ->
+    (forall v, 0 <= sizeOf v) ->
+  forall (progs : nat -> list (op K V)) (c : config (cache K V) (op K V) (cres_t K V) (cres_t K V)) t n r,
+    reach _ _ _ _ method_shape (csec K V keqb kzero vzero sizeOf hv) None (cfin K V) (cache_init K V lim) progs c ->
+    In (ERes _ _ t n OLen r) (trace _ _ _ _ c) ->
+    exists z, r = Some (RNum z, []) /\ 0 <= z.
+Proof. intros. eapply cache_conc_len_nonneg; try eassumption. exact all_atomic_now. Qed.
+Print Assumptions C09_len_nonneg.
+
+(* The hypotheses are satisfiable by a non-trivial schedule (computed with [run_sched]): thread 0
+   has completed Put(1,10); thread 1's Remove(1) has made its effect but not returned; thread 2 has
+   invoked Size() and waits for the mutex, which thread 1 still holds. *)
 Example C09_reach_ex :
-  let progs := fun t : nat => match t with O => [OPut 1 10] | S O => [OSize] | _ => [] end in
-  exists c, reach _ _ _ (cache_seq Z Z Z.eqb 0 0 unit_size pinned) method_locked (cache_init Z Z 2) progs c /\
-            lock _ _ _ c = Some O /\
-            trace _ _ _ c = [EInv _ _ O (OPut 1 10); EInv _ _ 1%nat OSize; ELin _ _ O (OPut 1 10) (Some (RBool true, []))] /\
-            ph _ _ _ c 1%nat = Invoked _ _ _ OSize.
-Proof.
-  intro progs.
-  pose (sq := cache_seq Z Z Z.eqb 0 0 unit_size pinned).
-  pose (lk := @method_locked Z Z).
-  assert (R0 := reach_start _ _ _ sq lk (cache_init Z Z 2) progs).
-  match type of R0 with reach _ _ _ _ _ _ _ ?c =>
-    pose proof (reach_step _ _ _ sq lk _ progs _ _ R0 (s_call _ _ _ sq lk O (OPut 1 10) [] c eq_refl eq_refl)) as R1 end.
-  match type of R1 with reach _ _ _ _ _ _ _ ?c =>
-    pose proof (reach_step _ _ _ sq lk _ progs _ _ R1 (s_call _ _ _ sq lk 1%nat OSize [] c eq_refl eq_refl)) as R2 end.
-  match type of R2 with reach _ _ _ _ _ _ _ ?c =>
-    pose proof (reach_step _ _ _ sq lk _ progs _ _ R2 (s_acquire _ _ _ sq lk O (OPut 1 10) c eq_refl eq_refl eq_refl)) as R3 end.
-  match type of R3 with reach _ _ _ _ _ _ _ ?c =>
-    pose proof (reach_step _ _ _ sq lk _ progs _ _ R3 (s_read _ _ _ sq lk O (OPut 1 10) c eq_refl (or_intror eq_refl))) as R4 end.
-  match type of R4 with reach _ _ _ _ _ _ _ ?c =>
-    pose proof (reach_step _ _ _ sq lk _ progs _ _ R4 (s_write _ _ _ sq lk O (OPut 1 10) (cache_init Z Z 2) c eq_refl (or_intror eq_refl))) as R5 end.
-  eexists. split; [exact R5|]. split; [reflexivity|]. split; [vm_compute; reflexivity|reflexivity].
-Qed.
+  let progs := fun t : nat => match t with O => [OPut 1 10] | 1%nat => [ORemove 1] | 2%nat => [OSize] | _ => [] end in
+  exists c, reach _ _ _ _ method_shape (csec Z Z Z.eqb 0 0 unit_size pinned) None (cfin Z Z) (cache_init Z Z 2) progs c /\
+            wr _ _ _ _ c = Some 1%nat /\
+            trace _ _ _ _ c =
+              [EInv _ _ O O (OPut 1 10); EEff _ _ O O (OPut 1 10) (Some (RBool true, [])); EInv _ _ 1%nat 1%nat (ORemove 1);
+               ERes _ _ O O (OPut 1 10) (Some (RBool true, [])); EInv _ _ 2%nat 2%nat OSize;
+               EEff _ _ 1%nat 1%nat (ORemove 1) (Some (RBool true, [(1, 10)]))] /\
+            ph _ _ _ _ c 2%nat = Between _ _ _ 2%nat OSize O None.
+Proof. exact conc_reach_example. Qed.
+
+(* The atomicity hypothesis is necessary.  Take the same cache (int keys and values, unit sizes,
+   limit 2) but let Remove be what seeded change S-C09-2 made it: a first exclusive section that
+   only checks presence (Has), then a second exclusive section that removes without looking again.
+   There is a schedule of two threads — Put(1,10); Remove(1); Len() against Remove(1) — whose
+   history is not linearizable w.r.t. the C08 model: both Removes return true, the callback is told
+   about key 1 twice, and Len() returns -1. *)
+Theorem C09_check_then_act_refuted :
+  exists (progs : nat -> list (op Z Z)) (c : config (cache Z Z) (op Z Z) (cres_t Z Z) (cres_t Z Z)),
+    reach _ _ _ _ shape2 sec2 None (cfin Z Z) (cache_init Z Z 2) progs c /\
+    In (ERes _ _ O 3%nat OLen (Some (RNum (-1), []))) (trace _ _ _ _ c) /\
+    ~ exists Sq : list (call (op Z Z) (cres_t Z Z)),
+        (forall t n o r, In (ERes _ _ t n o r) (history _ _ (trace _ _ _ _ c)) -> In (mk_call _ _ t n o r) Sq) /\
+        legal _ _ _ _ method_shape (csec Z Z Z.eqb 0 0 unit_size pinned) None (cfin Z Z) (cache_init Z Z 2)
+              (map (op_res _ _) Sq).
+Proof. exact check_then_act_refuted. Qed.
+Print Assumptions C09_check_then_act_refuted.
